@@ -187,6 +187,7 @@ def run(run, replay=None):
     else:
         product(run, [0, 1, 2], ["a", "b"], max_build=3, depth=4)
         product(run, [0, 1], ["a", "b", "c"], max_build=3, depth=4, tag="_3labels")
-    from . import c09_trace, c09_gap
+    from . import c09_trace, c09_gap, c09_suite
     c09_trace.run(run)
+    c09_suite.run(run)
     c09_gap.run(run)
